@@ -370,7 +370,18 @@ def run(ctx):
     outs = ctx.model.run([script_line(ops) for ops in scripts])
     for ops, o in zip(scripts, outs):
         seed = int(rng.integers(1, 2 ** 31))
-        impl_out, problems = run_impl(ops, seed)
+        try:
+            impl_out, problems = run_impl(ops, seed)
+        except Exception as e_:  # noqa
+            from ..core import raised_in_repo
+            if not raised_in_repo(e_):
+                raise
+            # the store raised in the middle of a script: that script is the failing input (judged by the oracle, which records it)
+            a_ = {"ops": [list(x) for x in ops], "seed": seed}
+            ok_, obs_, req_, text_ = oracle_script(a_)
+            ctx.case(None)
+            ctx.oracle_fail("trace-store-raised", "script", a_, obs_, req_, text_)
+            continue
         groups = split_model(o)
         nl = sum(1 for x in ops if x[0] == "load")
         nc = sum(1 for x in ops if x[0] == "clone")
